@@ -1127,6 +1127,10 @@ func TestVerifC19ResolverExit(t *testing.T) {
 			pl.trunc[i] = r.Intn(5) == 0
 		}
 		pl.extra = vC19GenExtra(r, pol)
+		if (len(pl.remote) == 4 || len(pl.remote) == 16) && r.Intn(12) == 0 {
+			// client_networks names this very client by its bare host address: refused by ecs.Build, the block is invalid
+			pl.b.nets = append(append([]string(nil), pl.b.nets...), pl.remote.String())
+		}
 		if r.Intn(3) == 0 { // more often than the shared generator does: a subnet option in the OPT the layer selects
 			for i := len(pl.extra) - 1; i >= 0; i-- {
 				if o, ok := pl.extra[i].(*dns.OPT); ok {
